@@ -474,6 +474,9 @@ func modelLine(c Case, compare bool, plan []string) string {
 	fault := "-"
 	if compare && c.FaultAt >= 0 {
 		fault = strconv.Itoa(c.FaultAt)
+		if c.isHTTP() && c.FaultKind == "close" {
+			fault += "+" // the simulator stays unreachable (see httpsim.go)
+		}
 	}
 	var pl []string
 	for _, p := range plan {
@@ -890,12 +893,18 @@ func judge(res *Result, o outcome, prop string, mu *sync.Mutex) {
 			return l
 		}
 		if c.isHTTP() && c.FaultKind == "close" && tag == "compare" {
-			// retries of the request that hit the closed connection
-			l := r.lines
-			for len(l) >= 2 && l[len(l)-1] == l[len(l)-2] {
-				l = l[:len(l)-1]
+			// net/http's retries of a request that hit the closed connection: repeated requests are
+			// collapsed on both sides
+			collapse := func(l []string) []string {
+				var out []string
+				for _, x := range l {
+					if len(out) == 0 || out[len(out)-1] != x {
+						out = append(out, x)
+					}
+				}
+				return out
 			}
-			r.lines = l
+			r.lines, m.lines = collapse(r.lines), collapse(m.lines)
 		}
 		impl := fmt.Sprintf("exit=%d diag=%v lines=%s", implExit, r.diag(), strings.Join(dropExit(r.lines), " | "))
 		model := fmt.Sprintf("exit=%d diag=%v lines=%s", m.exit, m.diag, strings.Join(dropExit(m.lines), " | "))
@@ -908,6 +917,9 @@ func judge(res *Result, o outcome, prop string, mu *sync.Mutex) {
 			return
 		}
 		for i := range r.kinds {
+			if len(r.kinds) != len(r.lines) || len(m.kinds) != len(m.lines) {
+				break // repeated requests were collapsed above; nothing but read-only requests there
+			}
 			if i < len(m.kinds) && kindClass(r.kinds[i]) != modelKindClass(m.kinds[i]) {
 				res.Disagree("c06 "+tag+" classification of request", c,
 					r.lines[i]+" => "+r.kinds[i], m.lines[i]+" => "+m.kinds[i])
